@@ -93,7 +93,56 @@ def stream_registry(chk, i, rng):
     chk.count(("registry", name))
 
 
-STREAMS = {"score": (stream_score, 420, 6000), "registry": (stream_registry, 13, 13)}
+def stream_reuse(chk, i, rng, with_grad=False):
+    """One GEMINI instance evaluated on a sequence of inputs — kernels released and re-allocated (recycled ids),
+    the same buffer modified in place, changing shapes — must give what a fresh instance gives each time:
+    the score (and gradient) is a function of (P, affinity) only, never of earlier calls."""
+    gl = gemlib.gemini_list()
+    label, fac = gl[i % len(gl)]
+    g = fac()
+    obj, ovo = gemlib.obj_of(g)
+    n = int(rng.integers(2, 9))
+    K = int(rng.integers(2, 5))
+    steps = []
+    buf = None
+    for step in range(6):
+        P = gemlib.gen_P(rng, n, K, rng.choice(["soft", "mid", "sharp"]))
+        A = None
+        how = "none"
+        if obj in ("mmd", "ws"):
+            how = rng.choice(["fresh", "recycled", "inplace"])
+            newA, _ = gemlib.gen_affinity(rng, n, "kernel" if obj == "mmd" else "dist")
+            newA = np.ascontiguousarray(newA, dtype=float)
+            if how == "inplace" and buf is not None and buf.shape == newA.shape:
+                buf[...] = newA                      # same array object, new content
+            else:
+                if how == "recycled":
+                    buf = None                       # release the previous matrix first: its id may be recycled
+                buf = newA.copy()
+            del newA
+            A = buf
+        if with_grad:
+            s, gr = g(P, A, return_grad=True)
+            fs, fgr = fac()(P.copy(), None if A is None else A.copy(), return_grad=True)
+            ok = close(float(s), float(fs), float(fs)) and np.allclose(gr, fgr, rtol=1e-9, atol=1e-12)
+        else:
+            s = g(P, A)
+            fs = fac()(P.copy(), None if A is None else A.copy())
+            ok = close(float(s), float(fs), float(fs))
+        steps.append(how)
+        if not ok:
+            chk.fail(f"reuse:history-dependent:{obj}:{'ovo' if ovo else 'ova'}",
+                     f"{label}: evaluation #{step} on a reused instance ({how} affinity) gives {float(s)!r}, a fresh instance gives {float(fs)!r}",
+                     {"gemini": label, "n": n, "K": K, "steps": steps, "with_grad": with_grad}, layer="L3")
+            break
+        if rng.random() < 0.3:
+            n = int(rng.integers(2, 9))
+            buf = None
+    chk.dist[f"reuse:{obj}"] += 1
+    chk.count(("reuse", label, n, K, tuple(steps), with_grad))
+
+
+STREAMS = {"score": (stream_score, 420, 6000), "registry": (stream_registry, 13, 13), "reuse": (stream_reuse, 130, 1500)}
 
 
 def main(pid="C01", streams=STREAMS, rule=None):
